@@ -45,7 +45,7 @@ class C12(Prop):
     id = "C12"
     lean_module = "ProductMD.Properties.C12"
     quick_budget = 2400
-    thorough_budget = 40000
+    thorough_budget = 24000
     rule = ("histories of add calls (rpms / modules / extra_files round-robin; valid, one-parameter-corrupted and randomly mutated "
             "arguments; repeats; the same entry under several variants/arches) run step by step on the real object and on the Lean "
             "model: outcome class and the whole mapping compared after EVERY call; oracle per call on the real object: refused => "
@@ -83,6 +83,17 @@ class C12(Prop):
             else:
                 root = mc.mutate_str(rng, rng.choice(BASES), alphabet="/ab.")
             yield {"op": "relative_to", "args": {"path": path, "root": root}}
+        # the two key parsers on their own: valid texts, the unparsable pools, and random edits of both
+        for i in range(max(200, budget // 4)):
+            src = f_rpms.gen_source(rng)
+            base = f_rpms.valid_op(rng, src, "V", "x86_64", rng.randrange(3))["nevra"] if rng.random() < 0.8 else rng.choice(f_rpms.UNPARSABLE)
+            s = base if rng.random() < 0.4 else mc.mutate_str(rng, base)
+            yield {"op": "check_nevra", "args": {"s": s}}
+        for i in range(max(200, budget // 4)):
+            parts = f_modules.gen_module(rng)
+            base = rng.choice(f_modules.PREFIXES) + ":".join(parts) if rng.random() < 0.8 else rng.choice([u for u in f_modules.BAD_UIDS if isinstance(u, str)])
+            s = base if rng.random() < 0.4 else mc.mutate_str(rng, base)
+            yield {"op": "check_uid", "args": {"uid": s if rng.random() < 0.97 else rng.choice([None, 7, ["a:b"], {"a": "b"}])}}
         for i in range(budget):
             k = kinds[i % 3]
             yield {"op": "trace", "args": {"kind": k, "ops": FORMATS[k].gen_ops(rng, tier)}}
@@ -95,6 +106,10 @@ class C12(Prop):
             f = FORMATS[a["kind"]]
             obj = f.new()
             return {"steps": mc.run_trace(obj, f.mapping, f.add, a["ops"])}
+        if case["op"] == "check_nevra":
+            return checklib.guarded(lambda: pm.rpms.Rpms()._check_nevra(a["s"])[0])
+        if case["op"] == "check_uid":
+            return checklib.guarded(lambda: pm.modules.Modules()._check_uid(a["uid"])[0])
         if case["op"] == "trace_init":
             f = FORMATS[a["kind"]]
             obj = f.new()
@@ -121,6 +136,8 @@ class C12(Prop):
         a = case["args"]
         if case["op"] == "trace":
             return [{"op": "bld_trace", "args": {"kind": a["kind"], "ops": strip_ops(a["ops"])}}]
+        if case["op"] in ("check_nevra", "check_uid"):
+            return [{"op": "bld_" + case["op"], "args": a}]
         if case["op"] == "trace_init":
             return [{"op": "bld_trace", "args": {"kind": a["kind"], "init": a["init"], "ops": a["ops"]}}]
         if case["op"] == "relative_to":
@@ -163,6 +180,10 @@ class C12(Prop):
                     return {"kind": "not-json-closed", "observed": {"step": i, "state": st["state"]},
                             "required": "the mapping holds only dict/list/str/int/None values with string keys"}
                 before = st["state"]
+            return None
+        if case["op"] in ("check_nevra", "check_uid"):
+            if "err" in real_out and real_out["err"] not in ("ValueError", "TypeError"):
+                return {"kind": "wrong-exception", "observed": real_out["err"], "required": "ValueError or TypeError"}
             return None
         if case["op"] == "relative_to":
             want = mc.rel_spec(a["path"], a["root"])
@@ -208,6 +229,10 @@ class C12(Prop):
                     d["accepted"] += 1
                 else:
                     d["refused"][st["out"]["err"]] = d["refused"].get(st["out"]["err"], 0) + 1
+        elif case["op"] in ("check_nevra", "check_uid"):
+            d = dist.setdefault(case["op"], {"n": 0, "ok": 0})
+            d["n"] += 1
+            d["ok"] += 1 if "ok" in real_out else 0
         elif case["op"] == "trace_init":
             d = dist.setdefault("trace_init", {"histories": 0, "outcomes": {}})
             d["histories"] += 1
